@@ -480,7 +480,7 @@ func c12Sym(c *Ctx, gen, mode string, p *profile.Profile, ms plugin.MappingSourc
 func runC12(c *Ctx) {
 	r := c.R
 	// 1. whole-Symbolize cases: random valid profile x mode x script x sources
-	n := c.Budget(800, 20000)
+	n := c.Budget(800, 6000)
 	for k := 0; k < n; k++ {
 		p := c12Profile(r, false)
 		ms := c12Sources_(r, p)
@@ -491,7 +491,7 @@ func runC12(c *Ctx) {
 		c12Sym(c, "random", mode, p, ms, c12ScriptGen(r, p, ms, 7))
 	}
 	// 2. no failures: everything answers, so that symbolization goes deep
-	for k := 0; k < c.Budget(200, 5000); k++ {
+	for k := 0; k < c.Budget(200, 1500); k++ {
 		p := c12Profile(r, false)
 		for _, m := range p.Mapping {
 			if r.P(2, 3) {
@@ -504,7 +504,7 @@ func runC12(c *Ctx) {
 	}
 	// 3. function ids right below 2^64 (the id headroom hypothesis fails: validity is not demanded,
 	//    the wrap-around itself is compared with the model)
-	for k := 0; k < c.Budget(30, 500); k++ {
+	for k := 0; k < c.Budget(30, 200); k++ {
 		p := c12Profile(r, true)
 		ms := c12Sources_(r, p)
 		c12Sym(c, "id-wrap", PickS(r, []string{"", "local", "remote:force", "force"}), p, ms, c12ScriptGen(r, p, ms, 20))
@@ -544,7 +544,7 @@ func runC12(c *Ctx) {
 			adj(a, -int64(o))
 		}
 	}
-	for k := 0; k < c.Budget(200, 20000); k++ {
+	for k := 0; k < c.Budget(200, 4000); k++ {
 		a, o := r.U64()>>uint(r.Intn(64)), r.I64()>>uint(r.Intn(64))
 		if r.P(1, 3) {
 			a = PickU(r, ext) + uint64(r.Intn(5)) - 2
@@ -559,7 +559,7 @@ func runC12(c *Ctx) {
 	}
 	// regular expression of symbolz answers: lines over a small alphabet around the syntax
 	alpha := []string{"0", "x", "0x", "1f", "A", "g", " ", "\t", "\r", "\f", "\v", "  ", "name", "0x1", "X", "+", "\xff"}
-	for k := 0; k < c.Budget(300, 20000); k++ {
+	for k := 0; k < c.Budget(300, 5000); k++ {
 		var sb strings.Builder
 		for j := r.Intn(8); j > 0; j-- {
 			sb.WriteString(PickS(r, alpha))
@@ -574,7 +574,7 @@ func runC12(c *Ctx) {
 	}
 	// removeMatching / looksLikeDemangledCPlusPlus over names built from brackets
 	br := []string{"(", ")", "<", ">", "a", "::", "b", "[", "]", ".<", "]).", ""}
-	for k := 0; k < c.Budget(300, 20000); k++ {
+	for k := 0; k < c.Budget(300, 5000); k++ {
 		var name string
 		if r.P(1, 4) {
 			name = PickS(r, c12SysNames)
